@@ -54,7 +54,8 @@ func MustParseTime(value string) Time {
 // TimeFromProto takes a proto Time and returns a System Time.
 func TimeFromProto(proto *dtpb.Time) Time {
 	duration := fhirconv.TimeToDuration(proto)
-	t := time.UnixMicro(duration.Microseconds()).In(time.UTC)
+	// (on the date that parsed Times carry, so that the two compare by time of day)
+	t := timeOfDay(time.UnixMicro(duration.Microseconds()).In(time.UTC))
 	var l layout
 	switch proto.Precision {
 	case dtpb.Time_MICROSECOND:
